@@ -165,7 +165,8 @@ class C16(FloatSpec):
             'constant; distinct = distinct case hash. Hardening: samples held as float32 / int16 / int32 / int64, read-only '
             'or strided; batch shapes (incl. size-1 axes) for csd, psd (averaged, trailing samples), tone_conv (scalar and '
             'array frequency), rms, rms_rfft; positional spelling; arguments compared with a copy after every call; '
-            'level helpers on integers, arrays, lists, Series; signals of 2^16..2^17 (thorough 2^20) samples.')
+            'level helpers on integers, arrays, lists, Series; signals of 2^16..2^17 (thorough 2^20) samples. Targeted pass: the '
+            'same sample / spectrum array analysed twice, overwritten in place in between (assign, scale by 0.25).')
     exhaustive_note = {
         'quick': 'tones, no window: every length 8..40 x every bin 0..n/2',
         'thorough': 'tones, no window: every length 8..96 x every bin 0..n/2; hann: every length 24..64 x every bin',
